@@ -142,12 +142,15 @@ func TestRegressReusedWorkDirBigIndex(t *testing.T) {
 	}
 	// 2 x 20000 distinct leaves: 40000+ keys. Then a small bundle goes away, another arrives, and the index is rebuilt
 	ops := []purgex.Op{big(0, 100), big(1, 50000), {Kind: purgex.OpUpload, Repo: 1, Leaf: 128, Files: []purgex.File{file("gone", 9, 1)}}}
-	for _, drop := range []bool{false, true} {
+	// in the second cycle one of the big bundles goes away as well: whichever key was the greatest one of the
+	// first local KV then belongs (in one of the two runs) to blobs that must be deleted
+	for i, drop := range []bool{false, true} {
 		pinned(t, "", "", caseT{
 			Shape: purgex.Shape{Repos: []int{2}, Leaves: []uint32{128}},
 			Pre:   ops, Chunk: 7000, Parallel: 4, SameDir: true,
 			Between: []purgex.Op{{Kind: purgex.OpDelBundle, Repo: 1, Pick: 1}},
-			Cycle2:  &cycleT{Ops: []purgex.Op{{Kind: purgex.OpUpload, Repo: 1, Leaf: 128, Files: []purgex.File{file("late", 9, 1)}}}, Chunk: 9000, Drop: drop},
+			Cycle2: &cycleT{Ops: []purgex.Op{{Kind: purgex.OpUpload, Repo: 1, Leaf: 128, Files: []purgex.File{file("late", 9, 1)}},
+				{Kind: purgex.OpDelBundle, Repo: i, Pick: 0}}, Chunk: 9000, Drop: drop},
 		})
 	}
 }
